@@ -64,6 +64,38 @@ type SymFloat struct {
 	Bits int
 }
 
+// SymString is a string of concrete length whose bytes may be symbolic (uint8 or SymInt of kind Uint8).
+type SymString struct{ B []value }
+
+// mkString normalises a byte sequence: all-concrete sequences become ordinary strings.
+func mkString(bs []value) value {
+	buf := make([]byte, len(bs))
+	for i, b := range bs {
+		c, ok := b.(uint8)
+		if !ok {
+			cp := make([]value, len(bs))
+			copy(cp, bs)
+			return SymString{cp}
+		}
+		buf[i] = c
+	}
+	return string(buf)
+}
+
+func strBytes(v value) ([]value, bool) {
+	switch s := v.(type) {
+	case string:
+		out := make([]value, len(s))
+		for i := 0; i < len(s); i++ {
+			out[i] = s[i]
+		}
+		return out, true
+	case SymString:
+		return s.B, true
+	}
+	return nil, false
+}
+
 // For map, array, *array, slice, string or channel.
 type iter interface {
 	// next returns a Tuple (key, value, ok).
@@ -229,7 +261,7 @@ func writeKey(b *strings.Builder, k value) {
 
 func hasSym(v value) bool {
 	switch v := v.(type) {
-	case SymInt, SymBool, SymFloat:
+	case SymInt, SymBool, SymFloat, SymString:
 		return true
 	case structure:
 		for _, f := range v {
@@ -328,6 +360,8 @@ func writeValue(buf *bytes.Buffer, v value) {
 		fmt.Fprintf(buf, "symb<%s>", v.T.Ref())
 	case SymFloat:
 		fmt.Fprintf(buf, "symf%d<%s>", v.Mode, v.T.Ref())
+	case SymString:
+		fmt.Fprintf(buf, "symstr[%d]", len(v.B))
 	case *omap:
 		buf.WriteString("map[")
 		if v != nil {
